@@ -16,9 +16,9 @@ const (
 	skOK = iota
 	skNoID
 	skSameIDAsFirst
-	skRouteHint       // selector hints are forbidden on the scoped path
+	skRouteHint // selector hints are forbidden on the scoped path
 	skApplicationHint
-	skBadTarget       // names a target the endpoint does not have
+	skBadTarget // names a target the endpoint does not have
 	skPayloadTooLarge
 	skBadHeader
 	skBadBase64
